@@ -43,7 +43,7 @@ def run(ctx, report: Report) -> None:
 
     # ---- R1 / R3 -----------------------------------------------------------------------------------------
     r1 = report.rule('C08-R1', 'only the documented TypeError leaves the matching API', floor=1)
-    r3 = report.rule('C08-R3', 'partial operations reachable from the matching API are discharged', floor=9)
+    r3 = report.rule('C08-R3', 'partial operations reachable from the matching API are discharged', floor=4)
     esc = {}
     for e in ENTRIES:
         esc.update(ef.escapes(e))
@@ -73,7 +73,7 @@ def run(ctx, report: Report) -> None:
                          f'(path {" -> ".join(e.path[-5:])})')
 
     # ---- R2 ------------------------------------------------------------------------------------------------
-    r2 = report.rule('C08-R2', 'util.lower() never receives None', floor=25)
+    r2 = report.rule('C08-R2', 'util.lower() never receives None', floor=6)
     # nullable-passthrough summaries: f(..., default) returns `default` or a normalised (non-None) value
     _, gabn = src.func('css_match._DocumentNav.get_attribute_by_name')
     params = [a.arg for a in gabn.args.args]
@@ -148,11 +148,11 @@ def run(ctx, report: Report) -> None:
                 r2.violation(f'{mn}.{fnq} util.lower({unparse(a)[:40]})', mod.where(c),
                              f'{mn}.{fnq}: util.lower({unparse(a)[:60]}) may receive None ({why}); lru_cache hides the signature from '
                              f'the type checker and iterating None raises TypeError')
-    if n_sites < 20:
+    if n_sites < 5:
         raise AnalysisError(f'only {n_sites} util.lower call sites found')
 
     # ---- R4 ------------------------------------------------------------------------------------------------
-    r4 = report.rule('C08-R4', 'values from get_parent() are None-tested before they are dereferenced', floor=5)
+    r4 = report.rule('C08-R4', 'values from get_parent() are None-tested before they are dereferenced', floor=3)
     # only possibly-None dereferences count: an argument-type complaint is not a run-time failure by itself
     errs = [e for e in tf.errors if 'css_match.py' in e and '[union-attr]' in e and '"None"' in e]
     for e in errs:
@@ -184,7 +184,7 @@ def run(ctx, report: Report) -> None:
                                  f'{q} suppresses a possibly-None attribute access with type: ignore')
 
     # ---- R5 ------------------------------------------------------------------------------------------------
-    r5 = report.rule('C08-R5', 'ancestor / sibling walks advance on every path back to the loop head', floor=13)
+    r5 = report.rule('C08-R5', 'ancestor / sibling walks advance on every path back to the loop head', floor=6)
     from ..pathwalk import Domain, Walker
     for q, fn in mmod.functions.items():
         if f'css_match.{q}' not in reach and not q.startswith(('CSSMatch.', '_DocumentNav.')):
@@ -237,7 +237,7 @@ def run(ctx, report: Report) -> None:
                              f'value: on a node that takes this path (e.g. a missing parent) the walk never ends')
     _spin_rule(ctx, r5, mmod, reach)
     # ---- R6 ------------------------------------------------------------------------------------------------
-    r6 = report.rule('C08-R6', 'attribute values reach the comparisons normalised (str or list of str)', floor=20)
+    r6 = report.rule('C08-R6', 'attribute values reach the comparisons normalised (str or list of str)', floor=12)
     from ..interp import Obj, Raised, call_function
     from ..miniev import Unsupported
     from ..tables import NSKey, el_obj, matcher_obj
@@ -277,7 +277,7 @@ def run(ctx, report: Report) -> None:
                      f'raise TypeError')
 
     # ---- R7 ------------------------------------------------------------------------------------------------
-    r7 = report.rule('C08-R7', 'the state pseudo-classes never raise on trees with multi-valued (list) attributes and odd text', floor=100)
+    r7 = report.rule('C08-R7', 'the state pseudo-classes never raise on trees with multi-valued (list) attributes and odd text', floor=235)
     from ..core import Rule
     from .sem import children_table, descendants_table, dir_table, lang_table, lang_memo_table, root_table
     for table in (lang_table, lang_memo_table, dir_table, descendants_table, children_table, root_table):
